@@ -759,12 +759,7 @@ func listTok(xs []string) string {
 // txLine writes the correspondence line of one transaction.
 func (x *allegRun) txLine(t *aTx, h, now int64, before, after *AState, cls string) {
 	feeOK := before.Vals[t.Signer] != nil
-	// request ids whose keys are in the committed tree (CheckRequestExists iterates those only)
-	var ctoks []string
-	for _, id := range sortedKeys(x.cst.Reqs) {
-		ctoks = append(ctoks, "c="+hexID(id))
-	}
-	pre := append(before.evTokens(), ctoks...)
+	pre := before.evTokens()
 	switch t.Op {
 	case "allege":
 		x.emit(strings.Join(append([]string{"allege", fmt.Sprintf("h=%d rep=%s acc=%s id=%s bh=%d sig=%d fee=%d", h, t.Signer, t.Accused, hexID(t.ID), t.BH, alB01(t.SigOK), alB01(feeOK))},
@@ -789,7 +784,7 @@ func (x *allegRun) txLine(t *aTx, h, now int64, before, after *AState, cls strin
 			x.guards++
 		}
 		// Validators.Iterate: records whose key is in the committed tree, with their current values
-		gt := filterTok(pre, "q=", "s=", "c=")
+		gt := filterTok(pre, "q=", "s=")
 		iter := map[string]*aVal{}
 		for a := range x.cst.Vals {
 			if v := before.Vals[a]; v != nil {
